@@ -48,6 +48,12 @@ static J gen_case(Chooser &ch)
     }
   c["queries"] = qs;
   c["props"] = g::gen_props(ch, 6);
+  // further property lists used on the same world handle, in this order, after the first one (lists of different lengths:
+  // whatever the wrapper keeps between calls must not leak from one request into the next)
+  J seq = J::arr();
+  const int extra = static_cast<int>(ch.range(0, 3));
+  for (int i = 0; i < extra; ++i) seq.push(g::gen_props(ch, i % 2 ? 6 : 2));
+  c["props_seq"] = seq;
   return c;
 }
 
@@ -103,14 +109,19 @@ static Result check_case(const J &c)
   WB::World N(wbfile, false, "", seed);
   wrapper_cpp::WorldBuilderWrapper X(wbfile, false, "", seed);
   WB::World NX(wbfile, false, "", seed); // receives exactly the calls X receives (random models draw per call)
-  const PropList pl = props_from(c.at("props"));
+  std::vector<PropList> lists = {props_from(c.at("props"))};
+  if (c.has("props_seq")) for (const auto &e : c.at("props_seq").a) lists.push_back(props_from(e));
+  if (lists.size() > 1) r.classes.push_back("several property lists on one handle");
+  const bool has_section = c.at("has_section").boolean();
+  for (size_t li = 0; li < lists.size(); ++li)
+  {
+  const PropList &pl = lists[li];
   std::vector<unsigned int> flat;
   for (auto &p : pl) { flat.push_back(p[0]); flat.push_back(p[1]); flat.push_back(p[2]); }
   const unsigned int (*cprops)[3] = reinterpret_cast<const unsigned int (*)[3]>(flat.data());
   const unsigned n_out = N.properties_output_size(pl);
   if (properties_output_size(cw, cprops, static_cast<unsigned>(pl.size())) != n_out)
     return Result::fail("c-output-size", "C properties_output_size differs from native");
-  const bool has_section = c.at("has_section").boolean();
   for (const auto &q : c.at("queries").a)
     {
       const auto p = p3(q.at("p"));
@@ -118,13 +129,13 @@ static Result check_case(const J &c)
       const double depth = q.at("depth").num();
       // same order of calls on both objects (random models draw from the engine per call)
       std::vector<double> vn = N.properties(p, depth, pl);
-      std::vector<double> vc(n_out + 4, -777.0);
+      std::vector<double> vc(n_out + 256, -777.0);
       properties_3d(cw, p[0], p[1], p[2], depth, cprops, static_cast<unsigned>(pl.size()), vc.data());
       r.inner++;
       if (r.nontrivial) r.inner_nt++;
       for (unsigned i = 0; i < n_out; ++i)
         if (!same_bits(vn[i], vc[i])) return Result::fail("c-properties-3d", "properties_3d value " + std::to_string(i) + " is " + fmt(vc[i]) + ", native " + fmt(vn[i]) + " for " + c.at("props").dump());
-      for (unsigned i = n_out; i < n_out + 4; ++i) if (vc[i] != -777.0) return Result::fail("c-properties-overrun", "properties_3d wrote past the announced size");
+      for (unsigned i = n_out; i < n_out + 256; ++i) if (vc[i] != -777.0) return Result::fail("c-properties-overrun", "properties_3d wrote " + fmt(vc[i]) + " at index " + std::to_string(i) + " of the caller's array although properties_output_size announces " + std::to_string(n_out) + " values for " + c.at(li == 0 ? "props" : "props_seq").dump() + " (request " + std::to_string(li) + " on this handle)");
       double tc = 0, tn = N.temperature(p, depth);
       temperature_3d(cw, p[0], p[1], p[2], depth, &tc);
       if (!same_bits(tc, tn)) return Result::fail("c-temperature-3d", "temperature_3d " + fmt(tc) + " vs native " + fmt(tn));
@@ -142,6 +153,7 @@ static Result check_case(const J &c)
           properties_2d(cw, pp[0], pp[1], depth, cprops, static_cast<unsigned>(pl.size()), vc.data());
           for (unsigned i = 0; i < n_out; ++i)
             if (!same_bits(vn[i], vc[i])) return Result::fail("c-properties-2d", "properties_2d value " + std::to_string(i) + " is " + fmt(vc[i]) + ", native " + fmt(vn[i]) + " for " + c.at("props").dump());
+          for (unsigned i = n_out; i < n_out + 256; ++i) if (vc[i] != -777.0) return Result::fail("c-properties-overrun", "properties_2d wrote " + fmt(vc[i]) + " at index " + std::to_string(i) + " of the caller's array although properties_output_size announces " + std::to_string(n_out) + " values (request " + std::to_string(li) + " on this handle)");
           tn = N.temperature(pp, depth);
           temperature_2d(cw, pp[0], pp[1], depth, &tc);
           if (!same_bits(tc, tn)) return Result::fail("c-temperature-2d", "temperature_2d " + fmt(tc) + " vs native " + fmt(tn));
@@ -152,6 +164,7 @@ static Result check_case(const J &c)
           if (!same_bits(X.composition_2d(pp[0], pp[1], depth, comp), NX.composition(pp, depth, comp))) return Result::fail("cpp-composition-2d", "C++ wrapper composition_2d differs from native");
         }
     }
+  }
   // (3) the seed reaches the engine: the first draws of the C world's engine equal those of a native world with that seed
   {
     void *cw2 = nullptr;
@@ -185,6 +198,6 @@ int main(int argc, char **argv)
 {
   return run_main("C16", argc, argv,
   {
-    {"wrappers", "worlds (40% with random models) x create_world arguments (output-dir flag null/false/true; output_dir null, empty, relative dirs with trailing slash; seeds 0, 1, 12345, 2^32-1, 2^33+7) x queries x property lists; oracle: native World with the same arguments, bitwise; declaration files listed in a scratch working directory. Non-trivial: non-default create_world arguments", 150, gen_case, check_case},
+    {"wrappers", "worlds (40% with random models) x create_world arguments (output-dir flag null/false/true; output_dir null, empty, relative dirs with trailing slash; seeds 0, 1, 12345, 2^32-1, 2^33+7) x queries x property lists; oracle: native World with the same arguments, bitwise; declaration files listed in a scratch working directory. 1..4 property lists of different lengths used one after the other on the same handle, 256 canary slots behind the announced output size. Every case runs in a fresh process. Non-trivial: non-default create_world arguments", 150, gen_case, check_case, 100, true, true},
   });
 }
